@@ -113,6 +113,23 @@ def permute_rows(net, seed):
     return n2, moved
 
 
+def add_pi_valves(rng, spec, k):
+    """up to k further open junction-pipe valves on randomly chosen pipes (rows in random order, so that the
+    (junction, pipe) pairs of the valve table are neither sorted nor in pipe row order)"""
+    pipes = [kw for fn, kw in spec["ops"] if fn == "create_pipe_from_parameters" and kw.get("in_service", True)]
+    used = {kw["element"] for fn, kw in spec["ops"] if fn == "create_valve" and kw["et"] == "pi"}
+    pipes = [p for p in pipes if p["index"] not in used]
+    rng.shuffle(pipes)
+    vl = [kw["index"] for fn, kw in spec["ops"] if fn == "create_valve"]
+    nxt = (max(vl) + 1) if vl else 0
+    for p in pipes[:k]:
+        spec["ops"].append(["create_valve", {"index": nxt, "junction": rng.choice([p["from_junction"], p["to_junction"]]),
+                                             "element": p["index"], "et": "pi", "inner_diameter_mm": 80.0, "opened": True,
+                                             "loss_coefficient": 0.0}])
+        nxt += 1
+    return spec
+
+
 def options_for(spec, rng=None, thermal=None):
     heat = "heat_modes" in spec
     if thermal is None:
@@ -255,6 +272,8 @@ def monitors(ctx, widen=False):
         prof = ["heat", "water", "gas"][i % 3]
         mode = rng.choice(["shuffled", "sparse", "large", "contig"])
         spec = gen.gen_net(rng, prof, label_mode=mode)
+        if prof != "heat" and rng.random() < 0.5:
+            add_pi_valves(rng, spec, rng.randint(2, 4))
         kw = options_for(spec, rng)
         for kind in ("relabel", "permute", "recreate"):
             try:
@@ -310,6 +329,113 @@ def monitor_t_outlet_witness(ctx):
                     break
 
 
+def pi_valve_structure(net):
+    """exact, structural: every junction-pipe valve leads from its junction to a valve node, and that valve node is the
+    end of exactly the pipe named in valve.element (at the end where the pipe is declared at that junction).
+    Returns None or a description of the first valve for which this fails.  Needs an initialised pit."""
+    import pandapipes.idx_branch as ib
+    L = net["_lookups"]
+    if "valve" not in L["branch_from_to"] or not len(net.valve) or not (net.valve.et == "pi").any():
+        return None
+    bp = net["_pit"]["branch"]
+    fv, _ = L["branch_from_to"]["valve"]
+    fp, _ = L["branch_from_to"]["pipe"]
+    jl = L["node_index"]["junction"]
+    internal = L["internal_branches"]["pipe"]
+    vn_f, vn_t = L["node_from_to"].get("valve_nodes", (0, 0))
+    prow = {int(l): r for r, l in enumerate(net.pipe.index.values)}
+    for k, (vi, row) in enumerate(net.valve.iterrows()):
+        if row.et != "pi":
+            continue
+        vfrom, vto = int(bp[fv + k, ib.FROM_NODE]), int(bp[fv + k, ib.TO_NODE])
+        r = prow[int(row.element)]
+        first, last = fp + int(internal[r, 0]), fp + int(internal[r, 1])
+        at_from = int(net.pipe.from_junction.values[r]) == int(row.junction)
+        pipe_end = int(bp[first, ib.FROM_NODE]) if at_from else int(bp[last, ib.TO_NODE])
+        if vfrom != int(jl[int(row.junction)]) or not (vn_f <= vto < vn_t) or pipe_end != vto:
+            return ("valve %d (junction %d, pipe %d): valve pit row %d -> %d, the %s of pipe %d is node %d, valve nodes "
+                    "are [%d, %d)" % (vi, row.junction, row.element, vfrom, vto,
+                                      "inlet" if at_from else "outlet", row.element, pipe_end, vn_f, vn_t))
+    return None
+
+
+def pi_family_spec(labels_j, labels_p, valve_order, at_hub):
+    """hub junction with k spokes; spoke i = pipe labels_p[i] to junction labels_j[i] with its own sink; one pi valve per
+    spoke, created in valve_order, sitting at the hub end (at_hub) or at the far end of its pipe"""
+    k = len(labels_p)
+    hub = max(labels_j) + 1
+    ops = [["create_junction", {"index": hub, "pn_bar": 5.0, "tfluid_k": 300.0}]]
+    ops += [["create_junction", {"index": j, "pn_bar": 5.0, "tfluid_k": 300.0}] for j in labels_j]
+    for i in range(k):
+        ops.append(["create_pipe_from_parameters", {"index": labels_p[i], "from_junction": hub, "to_junction": labels_j[i],
+                                                     "length_km": 0.1 + 0.05 * i, "inner_diameter_mm": 80.0, "k_mm": 0.1,
+                                                     "sections": 1 + (i % 3)}])
+    for n, i in enumerate(valve_order):
+        ops.append(["create_valve", {"index": n, "junction": hub if at_hub else labels_j[i], "element": labels_p[i],
+                                     "et": "pi", "inner_diameter_mm": 80.0, "opened": True, "loss_coefficient": 0.2}])
+    ops.append(["create_ext_grid", {"index": 0, "junction": hub, "p_bar": 5.0, "t_k": 300.0}])
+    for i in range(k):
+        ops.append(["create_sink", {"index": i, "junction": labels_j[i], "mdot_kg_per_s": 0.1 * (i + 1)}])
+    return {"fluid": "water", "ops": ops}, hub
+
+
+def monitor_pi_valve_family(ctx):
+    """3-5 junction-pipe valves on differently labelled pipes, label orders rotated / permuted against the row order:
+    structure of the pit, flow of every valve = flow of its own pipe = its sink, and equality with the contiguously
+    labelled twin"""
+    rng = ctx.rng
+    s = drive.psetup()
+    trials = []
+    for k in (3, 4, 5):
+        for rot in range(1, k):
+            base = [10 * (i + 1) for i in range(k)]
+            trials.append((base[rot:] + base[:rot], list(range(k)), True))       # rotated pipe labels
+    for _ in range(6 if ctx.quick else 120):
+        k = rng.randint(3, 5)
+        trials.append((rng.sample(range(0, 60), k), rng.sample(range(k), k), rng.random() < 0.5))
+    for labels_p, valve_order, at_hub in trials:
+        k = len(labels_p)
+        labels_j = rng.sample(range(0, 40), k)
+        spec, hub = pi_family_spec(labels_j, labels_p, valve_order, at_hub)
+        ctx.case({"monitor": "pi_family", "pipes": labels_p, "junctions": labels_j, "valves": valve_order,
+                  "at_hub": at_hub}, labels_p != sorted(labels_p))
+        ctx.count("monitor_pi_family")
+        net = gen.build(spec)
+        rp = {"kind": "pi_family", "net": spec, "options": {"use_numba": False}}
+        try:
+            s.init_options(net)
+            s.init_all_result_tables(net)
+            s.create_lookups(net)
+            s.initialize_pit(net)
+            bad = pi_valve_structure(net)
+        except Exception as e:  # noqa: BLE001
+            bad = "building the pit raised %r" % (e,)
+        if bad:
+            ctx.violation({"fn": "Valve.create_pit_branch_entries", "what": "pi_valve_attachment"}, bad, rp)
+            continue
+        net = gen.build(spec)
+        st, msg = drive.run(net, use_numba=False)
+        if st != "ok":
+            ctx.violation({"monitor": "pi_family", "outcome": st}, "spoke net with %d pi valves: %s %s" % (k, st, msg[:80]), rp)
+            continue
+        for n, i in enumerate(valve_order):
+            mv = abs(float(net.res_valve.mdot_from_kg_per_s.at[n]))
+            mp = abs(float(net.res_pipe.mdot_from_kg_per_s.at[labels_p[i]]))
+            if abs(mv - mp) > 1e-9 or abs(mp - 0.1 * (i + 1)) > 1e-9:
+                ctx.violation({"monitor": "pi_family", "table": "res_valve", "column": "mdot_from_kg_per_s"},
+                              "valve %d sits on pipe %d (sink %.1f kg/s): valve carries %r, pipe carries %r; pipe labels "
+                              "in row order %r" % (n, labels_p[i], 0.1 * (i + 1), mv, mp, labels_p), rp)
+                break
+        # contiguously labelled twin
+        twin, _ = pi_family_spec(list(range(k)), list(range(k)), valve_order, at_hub)
+        maps = {"junction": dict([(k, hub)] + list(zip(range(k), labels_j))), "pipe": dict(zip(range(k), labels_p)),
+                "valve": {n: n for n in range(k)}, "ext_grid": {0: 0}, "sink": {i: i for i in range(k)}}
+        status, diffs, sa, sb = compare("relabel", twin, lambda: gen.build(spec), {"use_numba": False}, index_map=maps)
+        if status in ("diff", "outcome"):
+            report(ctx, "relabel", twin, {"net_b": spec, "maps": {t: [[a, b] for a, b in m.items()] for t, m in maps.items()}},
+                   {"use_numba": False}, diffs, snaps=list(LAST_SNAPS) if status == "diff" else ())
+
+
 def lookup_property_check(net):
     """lookup_correct evaluated directly on the real lookups (used to classify a model disagreement)"""
     s = drive.psetup()
@@ -340,6 +466,15 @@ def replay(ctx, rp):
     elif kind == "permute":
         status, diffs, sa, sb = compare(kind, rp["net"], lambda: permute_rows(gen.build(rp["net"]), rp["sample_seed"])[0],
                                         rp["options"])
+    elif kind == "pi_family":
+        net = gen.build(rp["net"])
+        s = drive.psetup()
+        s.init_options(net); s.init_all_result_tables(net); s.create_lookups(net); s.initialize_pit(net)
+        bad = pi_valve_structure(net)
+        print("replay pi_family: %s" % (bad or "valve nodes attached to their own pipes"))
+        if bad:
+            ctx.violation({"fn": "Valve.create_pit_branch_entries", "what": "pi_valve_attachment"}, bad, rp)
+        return
     else:
         print("replay: nothing to re-run for kind %r" % kind)
         return
